@@ -283,21 +283,21 @@ def main():
         S.process("c05-corpus", run_lines(hb, "c05-eval", readlines(corpus)))
 
     n = lambda q, t: q if quick else t
-    S.process("c05-closed", harness(hb, "c05-closed", n=n(1500, 40000), seed=seed, tier=tier, work=WORK),
+    S.process("c05-closed", harness(hb, "c05-closed", n=n(6000, 60000), seed=seed, tier=tier, work=WORK),
               nontrivial=lambda r: r[1].startswith("false"))
-    S.process("c05-parsers", harness(hb, "c05-parsers", n=n(120, 3000), seed=seed, tier=tier, work=WORK),
+    S.process("c05-parsers", harness(hb, "c05-parsers", n=n(400, 4000), seed=seed, tier=tier, work=WORK),
               nontrivial=lambda r: r[1].startswith(("true", "false")))
-    S.process("c05-chains", harness(hb, "c05-chains", n=n(250, 8000), seed=seed, tier=tier, work=WORK),
+    S.process("c05-chains", harness(hb, "c05-chains", n=n(1000, 12000), seed=seed, tier=tier, work=WORK),
               nontrivial=lambda r: r[1].startswith(("true", "false")))
-    rows, _, _ = S.process("c05-nameops", harness(hb, "c05-nameops", n=n(1200, 40000), seed=seed, tier=tier, work=WORK,
+    rows, _, _ = S.process("c05-nameops", harness(hb, "c05-nameops", n=n(5000, 60000), seed=seed, tier=tier, work=WORK,
                                                   len=n(4, 8), quirks=8),
                            nontrivial=lambda r: r[1].startswith("ok"))
     hypothesis_check(c, "c05-nameops", rows)
-    rows, _, _ = S.process("c05-nameops-clean", harness(hb, "c05-nameops", n=n(600, 20000), seed=seed + 1000, tier=tier,
+    rows, _, _ = S.process("c05-nameops-clean", harness(hb, "c05-nameops", n=n(2500, 30000), seed=seed + 1000, tier=tier,
                                                         work=WORK, len=n(4, 8), quirks=0),
                            nontrivial=lambda r: r[1].startswith("ok"))
     hypothesis_check(c, "c05-nameops-clean", rows)
-    S.process("c05-filter", harness(hb, "c05-filter", n=n(800, 30000), seed=seed, tier=tier, work=WORK),
+    S.process("c05-filter", harness(hb, "c05-filter", n=n(3000, 40000), seed=seed, tier=tier, work=WORK),
               nontrivial=lambda r: r[1].startswith("ok"))
 
     c.oblige("every failure class was shrunk and classified (no class skipped)", S.unclassified == 0,
